@@ -15,7 +15,8 @@ def showOut : Out → String
 def wantOK (w : String) : Bool := w = "accept" || w = "reject" || w = "any"
 
 /-- the login-history ops (pass `login`): reset <u1,u2,…> | sethash <u> <hash> | login|loginfull|checkpw <u> <pw> <want> |
-chpw <u> <old> <new> <num> <seed> <want> | stored <u>.  State: the store user ↦ hash; `reset` lists the users that
+chpw <u> <old> <new> <num> <seed> <want> | stored <u>; blogin / bcheckpw / bchpw are the string-taking entry points of
+the bbs layer, which hand the bytes on unchanged: the same model steps.  State: the store user ↦ hash; `reset` lists the users that
 exist (their hashes are then set by `sethash`). -/
 def stepLogin (st : Store) (ws : List String) : Option (Store × String) :=
   match ws with
@@ -27,12 +28,14 @@ def stepLogin (st : Store) (ws : List String) : Option (Store × String) :=
       | some u, some h => let (s, o) := step st (.sethash u h); some (s, showOut o)
       | _, _ => some (st, "bad-op")
   | [k, u, p, w] =>
-      if k = "login" || k = "loginfull" || k = "checkpw" then
+      if k = "login" || k = "loginfull" || k = "checkpw" || k = "blogin" || k = "bcheckpw" then
         match parseHex u, parseHex p, wantOK w with
         | some u, some p, true => let (s, o) := step st (.login u p); some (s, showOut o)
         | _, _, _ => some (st, "bad-op")
       else none
-  | ["chpw", u, o, n, num, k, w] => match parseHex u, parseHex o, parseHex n, num.toNat?, k.toNat?, wantOK w with
+  | [c, u, o, n, num, k, w] =>
+      if c ≠ "chpw" && c ≠ "bchpw" then none else
+      match parseHex u, parseHex o, parseHex n, num.toNat?, k.toNat?, wantOK w with
       | some u, some o, some n, some num, some _, true => let (s, r) := step st (.chpw u o n num); some (s, showOut r)
       | _, _, _, _, _, _ => some (st, "bad-op")
   | ["stored", u] => match parseHex u with
